@@ -375,6 +375,7 @@ def corpus():
 
 # ------------------------------------------------------------------------------------------- the statement as an oracle
 def oracle(case):
+    if case.get('kind') in ('ini', 'store_text'): return []      # text-level correspondence cases: no verdict of this property's statement
     m = case['model']; fails = []
     got = run_text(r_model(m))
     if got[0] == 'Numeric' and case['expect'] == 'Ok': return []
